@@ -65,6 +65,8 @@ func HC13FlexFEC() {
 	}
 	vr.Assert(lf.n == 3 && lr.n == 3, "two media packets and one repair packet each")
 	vr.Cover("repair emitted")
+	vr.Assert(lf.ssrc[0] == 0x1111 && lf.ssrc[1] == 0x1111 && lf.ssrc[2] == 0xFEC, "media packets pass through first, the repair packet follows with the FEC SSRC")
+	vr.Assert(lf.ln[0] <= 2 && lf.ln[1] <= 2, "media payloads pass through with their own length")
 	for k := 0; k < 3; k++ {
 		vr.Assert(lf.ssrc[k] == lr.ssrc[k] && lf.ln[k] == lr.ln[k], "same packets emitted")
 		for j := 0; j < 24; j++ {
